@@ -10,6 +10,10 @@ For every entry of /tmp/seed-out/<id>/meta.json, in the scratch worktree /tmp/se
      packages fail at setup without movie.mp4, before and after: not counted)
   4. git checkout -- . ; git clean
 Confirmed changes are stored as seeded/<id>-<n>/{patch.diff, demo/, meta.json}.
+
+Note for whoever briefs the seeders: `git stash` is shared by all worktrees of one repository;
+concurrent seeders that stash swap changes (seen in wave 8).  Tell them to use `git apply` /
+`git apply -R` on their saved patch, and check that every patch touches only its own files.
 """
 import json, os, re, shutil, subprocess, sys
 
